@@ -1334,7 +1334,10 @@ def inject_inconsistency(rng, prog, cls):
         if found and rng.random() < 0.8:
             blk, k, after = rng.choice(found)
             j = rng.randint(after + 1, max(after + 1, _spent_index(pr, name)))
-            return result(insert_at(j, [["branch_exit", name, ["out", ["b", blk], k]]]), j)
+            w = ["out", ["b", blk], k]
+            # both ways of branching to the exit block: `branch_exit(w)` and `branch(w, cfg.exit)`
+            bad = ["branch_exit", name, w] if rng.random() < 0.5 else ["branch", name, w, ["exit", name]]
+            return result(insert_at(j, [bad]), j)
         # a fresh block whose single successor row differs from the exit row
         from hugr import tys
 
@@ -1344,7 +1347,8 @@ def inject_inconsistency(rng, prog, cls):
         if ws:
             pre.append(["load", "bx_inj", "nx_inj", ["val", ["@bool", True], None]])
         pre.append(["set_single_succ_outputs", "bx_inj", ws])
-        bad = ["branch_exit", name, ["out", ["b", "bx_inj"], 0]]
+        w = ["out", ["b", "bx_inj"], 0]
+        bad = ["branch_exit", name, w] if rng.random() < 0.5 else ["branch", name, w, ["exit", name]]
         return result(insert_at(j, [*pre, bad]), j + len(pre))
 
     if cls in ("poly_no_inst", "poly_wrong_count"):
